@@ -2513,9 +2513,15 @@ impl Interpreter {
             f_ref.prototype = Some(self.function_prototype.clone());
             f_ref.exotic = ExoticObject::Function(JsFunction::Bytecode(bc_func));
             // Set length property (number of formal parameters)
-            f_ref.set_property(length_key, JsValue::Number(param_count as f64));
+            f_ref.define_property(
+                length_key,
+                Property::with_attributes(JsValue::Number(param_count as f64), true, false, true),
+            );
             // Set name property
-            f_ref.set_property(name_key, JsValue::String(func_name));
+            f_ref.define_property(
+                name_key,
+                Property::with_attributes(JsValue::String(func_name), true, false, true),
+            );
         }
 
         // Regular functions (not arrow functions) need a .prototype property
@@ -2524,13 +2530,15 @@ impl Interpreter {
             let proto_obj = guard.alloc();
             proto_obj.borrow_mut().prototype = Some(self.object_prototype.clone());
             // Set prototype.constructor = function
-            proto_obj
-                .borrow_mut()
-                .set_property(ctor_key, JsValue::Object(func_obj.cheap_clone()));
+            proto_obj.borrow_mut().define_property(
+                ctor_key,
+                Property::with_attributes(JsValue::Object(func_obj.cheap_clone()), true, false, true),
+            );
             // Set function.prototype = prototype object
-            func_obj
-                .borrow_mut()
-                .set_property(proto_key, JsValue::Object(proto_obj));
+            func_obj.borrow_mut().define_property(
+                proto_key,
+                Property::with_attributes(JsValue::Object(proto_obj), true, false, false),
+            );
         }
 
         func_obj
@@ -2567,8 +2575,14 @@ impl Interpreter {
             let mut f_ref = func_obj.borrow_mut();
             f_ref.prototype = Some(self.function_prototype.clone());
             f_ref.exotic = ExoticObject::Function(JsFunction::BytecodeGenerator(bc_func));
-            f_ref.set_property(length_key, JsValue::Number(param_count as f64));
-            f_ref.set_property(name_key, JsValue::String(func_name));
+            f_ref.define_property(
+                length_key,
+                Property::with_attributes(JsValue::Number(param_count as f64), true, false, true),
+            );
+            f_ref.define_property(
+                name_key,
+                Property::with_attributes(JsValue::String(func_name), true, false, true),
+            );
         }
         func_obj
     }
@@ -2604,8 +2618,14 @@ impl Interpreter {
             let mut f_ref = func_obj.borrow_mut();
             f_ref.prototype = Some(self.function_prototype.clone());
             f_ref.exotic = ExoticObject::Function(JsFunction::BytecodeAsync(bc_func));
-            f_ref.set_property(length_key, JsValue::Number(param_count as f64));
-            f_ref.set_property(name_key, JsValue::String(func_name));
+            f_ref.define_property(
+                length_key,
+                Property::with_attributes(JsValue::Number(param_count as f64), true, false, true),
+            );
+            f_ref.define_property(
+                name_key,
+                Property::with_attributes(JsValue::String(func_name), true, false, true),
+            );
         }
         func_obj
     }
@@ -2640,8 +2660,14 @@ impl Interpreter {
             let mut f_ref = func_obj.borrow_mut();
             f_ref.prototype = Some(self.function_prototype.clone());
             f_ref.exotic = ExoticObject::Function(JsFunction::BytecodeAsyncGenerator(bc_func));
-            f_ref.set_property(length_key, JsValue::Number(param_count as f64));
-            f_ref.set_property(name_key, JsValue::String(func_name));
+            f_ref.define_property(
+                length_key,
+                Property::with_attributes(JsValue::Number(param_count as f64), true, false, true),
+            );
+            f_ref.define_property(
+                name_key,
+                Property::with_attributes(JsValue::String(func_name), true, false, true),
+            );
         }
         func_obj
     }
@@ -2786,9 +2812,15 @@ impl Interpreter {
                 ffi_id: 0,
             }));
             // Set length property (number of formal parameters)
-            f_ref.set_property(length_key, JsValue::Number(arity as f64));
+            f_ref.define_property(
+                length_key,
+                Property::with_attributes(JsValue::Number(arity as f64), true, false, true),
+            );
             // Set name property
-            f_ref.set_property(name_key, JsValue::String(name_str));
+            f_ref.define_property(
+                name_key,
+                Property::with_attributes(JsValue::String(name_str), true, false, true),
+            );
         }
         func_obj
     }
@@ -2830,9 +2862,15 @@ impl Interpreter {
             f_ref.prototype = Some(self.function_prototype.clone());
             f_ref.exotic = ExoticObject::Function(func);
             // Set length property (number of formal parameters)
-            f_ref.set_property(length_key, JsValue::Number(arity as f64));
+            f_ref.define_property(
+                length_key,
+                Property::with_attributes(JsValue::Number(arity as f64), true, false, true),
+            );
             // Set name property
-            f_ref.set_property(name_key, JsValue::String(func_name));
+            f_ref.define_property(
+                name_key,
+                Property::with_attributes(JsValue::String(func_name), true, false, true),
+            );
         }
         func_obj
     }
